@@ -130,6 +130,55 @@ theorem decode_encode_len0 (f : Nat) (L : List Syn) (bs : Bytes) (tr : Trace) (r
   rw [List.append_nil] at this
   exact ⟨out, this, hlen⟩
 
+/-- whenever the decoder accepts, the don't-care walk over the same bytes succeeds with the same trace and rest
+    (no `IsBytes` needed) -/
+theorem decode_dontCare (f : Nat) : ∀ (L : List Syn) (acc : Trace) (bs : Bytes) (a : Trace) (rest : Bytes) (pos : Nat),
+    decode f L acc bs = some (a, rest) → ∃ dc p, dontCare f L acc bs pos = some (dc, a, rest, p) := by
+  induction f with
+  | zero => intro L acc bs a rest pos h; simp [decode] at h
+  | succ f ih =>
+    intro L acc bs a rst pos hd
+    match L with
+    | [] =>
+      simp only [decode, Option.some.injEq, Prod.mk.injEq] at hd
+      obtain ⟨rfl, rfl⟩ := hd
+      exact ⟨[], pos, by simp [dontCare]⟩
+    | .fld nm fl :: rest =>
+      simp only [decode] at hd
+      split at hd
+      · rename_i v bs' hv
+        obtain ⟨dc, p, h⟩ := ih rest _ bs' a rst (pos + (bs.length - bs'.length)) hd
+        exact ⟨_, p, by simp only [dontCare, hv, h, Option.map_some]; rfl⟩
+      · simp at hd
+    | .cond p body :: rest =>
+      simp only [decode] at hd
+      by_cases hp : p acc
+      · simp only [hp, if_true] at hd
+        split at hd
+        · rename_i a1 bs1 h1
+          obtain ⟨dc1, p1, e1⟩ := ih body acc bs a1 bs1 pos h1
+          obtain ⟨dc2, p2, e2⟩ := ih rest a1 bs1 a rst p1 hd
+          exact ⟨_, p2, by simp only [dontCare, hp, if_true, e1, e2, Option.map_some]; rfl⟩
+        · simp at hd
+      · simp only [hp] at hd
+        obtain ⟨dc2, p2, e2⟩ := ih rest acc bs a rst pos hd
+        exact ⟨dc2, p2, by simp only [dontCare, hp]; exact e2⟩
+    | .rep cnt body :: rest =>
+      simp only [decode] at hd
+      cases hc : cnt acc with
+      | zero =>
+        simp only [hc] at hd
+        obtain ⟨dc2, p2, e2⟩ := ih rest acc bs a rst pos hd
+        exact ⟨dc2, p2, by simp only [dontCare, hc]; exact e2⟩
+      | succ n =>
+        simp only [hc] at hd
+        split at hd
+        · rename_i a1 bs1 h1
+          obtain ⟨dc1, p1, e1⟩ := ih body acc bs a1 bs1 pos h1
+          obtain ⟨dc2, p2, e2⟩ := ih _ a1 bs1 a rst p1 hd
+          exact ⟨_, p2, by simp only [dontCare, hc, e1, e2, Option.map_some]; rfl⟩
+        · simp at hd
+
 end Mp4ff.Layout
 
 namespace Mp4ff.TreeRT
@@ -900,5 +949,229 @@ theorem lossless (f : Nat) (bs : Bytes) (hb : IsBytes bs) (enc : Bytes) (dc : Li
     exact hag i h8i hi hn
   · obtain ⟨h8l, hl8, _, _, _⟩ := parseHeader_8 bs h8 ty hl _ hph
     exact unknownEnc_get bs hl h8l hl8 enc he i h8i
+
+/-! ### fixed point through nesting -/
+
+/-- what of a decoded child matters for acceptance and re-encoding (everything but its don't-care positions) -/
+def kidKey (k : Kid) : String × Bytes × Bool := (k.ty, k.enc, k.encOK)
+
+theorem sameKids_enc : ∀ (ks ks' : List Kid), ks'.map kidKey = ks.map kidKey → encKids ks' = encKids ks
+  | [], [], _ => rfl
+  | [], _ :: _, h => by simp at h
+  | _ :: _, [], h => by simp at h
+  | k :: ks, k' :: ks', h => by
+    simp only [List.map_cons, List.cons.injEq, kidKey, Prod.mk.injEq] at h
+    simp only [encKids, h.1.2.1, sameKids_enc ks ks' h.2]
+
+theorem sameKids_all : ∀ (ks ks' : List Kid), ks'.map kidKey = ks.map kidKey →
+    ks'.all (·.encOK) = ks.all (·.encOK)
+  | [], [], _ => rfl
+  | [], _ :: _, h => by simp at h
+  | _ :: _, [], h => by simp at h
+  | k :: ks, k' :: ks', h => by
+    simp only [List.map_cons, List.cons.injEq, kidKey, Prod.mk.injEq] at h
+    simp only [List.all_cons, h.1.2.2, sameKids_all ks ks' h.2]
+
+theorem sameKids_tyAll (p : String → Bool) : ∀ (ks ks' : List Kid), ks'.map kidKey = ks.map kidKey →
+    ks'.all (fun k => p k.ty) = ks.all (fun k => p k.ty)
+  | [], [], _ => rfl
+  | [], _ :: _, h => by simp at h
+  | _ :: _, [], h => by simp at h
+  | k :: ks, k' :: ks', h => by
+    simp only [List.map_cons, List.cons.injEq, kidKey, Prod.mk.injEq] at h
+    simp only [List.all_cons, h.1.1, sameKids_tyAll p ks ks' h.2]
+
+theorem sameKids_tyAny (p : String → Bool) : ∀ (ks ks' : List Kid), ks'.map kidKey = ks.map kidKey →
+    ks'.any (fun k => p k.ty) = ks.any (fun k => p k.ty)
+  | [], [], _ => rfl
+  | [], _ :: _, h => by simp at h
+  | _ :: _, [], h => by simp at h
+  | k :: ks, k' :: ks', h => by
+    simp only [List.map_cons, List.cons.injEq, kidKey, Prod.mk.injEq] at h
+    simp only [List.any_cons, h.1.1, sameKids_tyAny p ks ks' h.2]
+
+theorem sameKids_accepts (ty : String) (ks ks' : List Kid) (h : ks'.map kidKey = ks.map kidKey) :
+    accepts ty ks' = accepts ty ks := by
+  unfold accepts
+  rw [sameKids_tyAll (fun t => decide (t = "elst")) ks ks' h, sameKids_tyAny (fun t => decide (t = "tfhd")) ks ks' h]
+
+theorem sameKids_length (ks ks' : List Kid) (h : ks'.map kidKey = ks.map kidKey) : ks'.length = ks.length := by
+  have := congrArg List.length h
+  simpa using this
+
+/-- the header of an accepted, length-preserving re-encoding parses as the input's header did (8-byte header, same
+    type, size = length), whatever follows it -/
+theorem parseHeader_out (f : Nat) (bs : Bytes) (hb : IsBytes bs) (enc : Bytes) (dc : List Nat)
+    (hsz : bs.length < 2 ^ 32) (h : rtBox f bs = .ok enc dc) (hlen : enc.length = bs.length)
+    (ty : String) (hl sz : Nat) (hph : parseHeader bs = some (ty, hl, sz)) (X : Bytes) :
+    parseHeader (enc ++ X) = some (ty, 8, enc.length) := by
+  have h1 := rtBox_hdr8 f bs hb enc dc h hlen
+  obtain ⟨h8, _, _, _, hty⟩ := parseHeader_8 bs h1 ty hl sz hph
+  obtain ⟨e1, e2, _⟩ := header_field f bs hb enc dc hsz h
+  have t4 : (enc ++ X).take 4 = enc.take 4 := List.take_append_of_le_length (by omega)
+  have d4 : ((enc ++ X).drop 4).take 4 = (enc.drop 4).take 4 := by
+    rw [List.drop_append_of_le_length (by omega), List.take_append_of_le_length (by simp; omega)]
+  have := parseHeader_of (enc ++ X) (by simp; omega) (by rw [t4, e1]; omega)
+  rw [t4, d4, e1, e2, ← hty] at this
+  exact this
+
+theorem finishBox_intro (ty : String) (bs : Bytes) (ps : PSpec) (fuelP : Nat) (tr : Layout.Trace) (payload : Bytes)
+    (kids : List Kid) (pb : Bytes) (a1 a2 : Layout.Trace) (pdc : List Nat) (b1 : Layout.Trace) (b2 : Bytes) (b3 : Nat)
+    (hacc : accepts ty kids = true) (hcnt : countBad ps tr kids.length = false)
+    (harr : arrange ty kids = kids) (hall : kids.all (·.encOK) = true)
+    (he : Layout.encode fuelP ps.pre [] tr = some (pb, a1, a2))
+    (hd : Layout.dontCare fuelP ps.pre [] payload 0 = some (pdc, b1, b2, b3)) :
+    finishBox ty bs ps fuelP tr payload (.ok kids) =
+      .ok (beBytes 4 (8 + pb.length + (encKids kids).length) ++ (bs.drop 4).take 4 ++ pb ++ encKids kids)
+          (pdc.map (· + 8) ++ dcKids kids (8 + pb.length)) := by
+  simp only [finishBox, hacc, hcnt, harr, hall, he, hd]
+  simp
+
+/-- everything an accepted container went through -/
+theorem prefixBox_ok2 (f : Nat) (ty : String) (bs : Bytes) (ps : PSpec) (enc : Bytes) (dc : List Nat)
+    (h : prefixBox f ty bs ps = .ok enc dc) :
+    ∃ (tr : Layout.Trace) (rest : Bytes) (kids : List Kid) (pb : Bytes) (a1 a2 : Layout.Trace),
+      Layout.decode (Layout.fuelFor ps.pre (bs.drop 8).length) ps.pre [] (bs.drop 8) = some (tr, rest) ∧
+      ps.valid tr = true ∧ rtKids f rest = .ok kids ∧ accepts ty kids = true ∧
+      countBad ps tr kids.length = false ∧ (arrange ty kids).all (·.encOK) = true ∧
+      Layout.encode (Layout.fuelFor ps.pre (bs.drop 8).length) ps.pre [] tr = some (pb, a1, a2) ∧
+      enc = beBytes 4 (8 + pb.length + (encKids (arrange ty kids)).length) ++ (bs.drop 4).take 4 ++ pb ++
+        encKids (arrange ty kids) := by
+  unfold prefixBox at h
+  cases hd : Layout.decode (Layout.fuelFor ps.pre (bs.drop 8).length) ps.pre [] (bs.drop 8) with
+  | none => rw [hd] at h; cases h
+  | some p =>
+    obtain ⟨tr, rest⟩ := p
+    simp only [hd] at h
+    by_cases c : ¬ ps.valid tr = true
+    · rw [if_pos c] at h; cases h
+    simp only [if_neg c] at h
+    obtain ⟨kids, pb, pdc, a1, a2, b1, b2, b3, hk, hacc, hall, he, _, henc, _⟩ := finishBox_ok _ _ _ _ _ _ _ _ _ h
+    refine ⟨tr, rest, kids, pb, a1, a2, rfl, Decidable.not_not.mp c, hk, hacc, ?_, hall, he, henc⟩
+    rw [hk] at h
+    cases hc : countBad ps tr kids.length with
+    | false => rfl
+    | true => simp [finishBox, hacc, hc] at h
+
+theorem fixed_point_gen : ∀ f : Nat,
+    (∀ bs enc dc, IsBytes bs → bs.length < 2 ^ 32 → moovFree f bs = true → rtBox f bs = .ok enc dc →
+      enc.length = bs.length → ∃ dc', rtBox f enc = .ok enc dc') ∧
+    (∀ bs ks, IsBytes bs → bs.length < 2 ^ 32 → moovFreeKids f bs = true → rtKids f bs = .ok ks →
+      ks.all (·.encOK) = true →
+      ∃ ks', rtKids f (encKids ks) = .ok ks' ∧ ks'.map kidKey = ks.map kidKey) := by
+  intro f
+  induction f with
+  | zero =>
+    constructor
+    · intro bs enc dc _ _ _ h; simp [rtBox] at h
+    · intro bs ks _ _ _ h; simp [rtKids] at h
+  | succ f ih =>
+    obtain ⟨ihB, ihK⟩ := ih
+    constructor
+    · intro bs enc dc hb hsz hm h hlen
+      have h1 := rtBox_hdr8 _ bs hb enc dc h hlen
+      obtain ⟨f', ty, hl, hf, hph, hcase⟩ := rtBox_ok_cases _ bs enc dc h
+      have hf' : f = f' := by omega
+      subst hf'
+      obtain ⟨h8, hl8, _, _, _⟩ := parseHeader_8 bs h1 ty hl _ hph
+      obtain ⟨hty, hmk⟩ := moovFree_succ f bs ty hl _ hph hm
+      have hphE : parseHeader enc = some (ty, 8, enc.length) := by
+        have := parseHeader_out _ bs hb enc dc hsz h hlen ty hl _ hph []
+        rwa [List.append_nil] at this
+      rcases hcase with ⟨ps, hps, _, hp⟩ | ⟨hps, sz, hrt⟩ | ⟨_, he, hdc⟩
+      · obtain ⟨tr, rest, kids, pb, a1, a2, hd, hv, hk, hacc, hcnt, hall, he, henc⟩ :=
+          prefixBox_ok2 f ty bs ps enc dc hp
+        rw [arrange_of_ne ty kids hty] at hall henc
+        obtain ⟨ext, out, dc0, ha, henc0, _, hplen, hdrop, _, hdec⟩ :=
+          Layout.encode_decode_gen _ _ _ _ _ _ (hb.drop 8) hd
+        simp only [List.nil_append] at ha
+        subst ha
+        have e1 := henc0 []
+        rw [List.append_nil, he] at e1
+        simp only [Option.some.injEq, Prod.mk.injEq] at e1
+        obtain ⟨rfl, _, _⟩ := e1
+        have hkl := rtKids_length _ _ _ hk
+        have hdec' := hdec (encKids kids) (fun e => List.eq_nil_of_length_eq_zero (by rw [hkl, e]; rfl))
+        have hrb : IsBytes rest := by rw [hdrop]; exact (hb.drop 8).drop _
+        have hrl : rest.length < 2 ^ 32 := by rw [List.length_drop] at hplen; omega
+        obtain ⟨kids', hk', hsame⟩ := ihK rest kids hrb hrl (hmk ps tr rest hps hd) hk hall
+        have ht4 : ((bs.drop 4).take 4).length = 4 := by simp; omega
+        have hencB : enc = beBytes 4 (8 + pb.length + (encKids kids).length) ++ (bs.drop 4).take 4 ++
+            (pb ++ encKids kids) := by rw [henc, List.append_assoc _ pb]
+        obtain ⟨_, _, f3, f4⟩ := hdr_facts (8 + pb.length + (encKids kids).length) ((bs.drop 4).take 4)
+          (pb ++ encKids kids) ht4
+        rw [← hencB] at f3 f4
+        have hbl : (pb ++ encKids kids).length = (bs.drop 8).length := by
+          rw [List.length_append, hkl]; exact hplen
+        obtain ⟨pdc', p', hdc'⟩ := Layout.decode_dontCare _ _ _ _ _ _ 0 hdec'
+        rw [rtBox_succ, hphE]
+        simp only [ne_eq, not_true_eq_false, if_false, hps]
+        unfold prefixBox
+        rw [f4, hbl, hdec']
+        simp only [hv, not_true_eq_false, if_false]
+        rw [hk', finishBox_intro ty enc ps _ tr _ kids' pb a1 a2 pdc' tr (encKids kids) p'
+          (by rw [sameKids_accepts ty kids kids' hsame]; exact hacc)
+          (by rw [sameKids_length kids kids' hsame]; exact hcnt)
+          (arrange_of_ne ty kids' hty)
+          (by rw [sameKids_all kids kids' hsame]; exact hall) he hdc']
+        refine ⟨pdc'.map (· + 8) ++ dcKids kids' (8 + pb.length), ?_⟩
+        rw [sameKids_enc kids kids' hsame, f3, ← henc]
+      · obtain ⟨_, _, _, _, _, hfix⟩ := roundTrip_spec bs hb sz enc dc h1 hsz hrt
+        obtain ⟨dc', hrt'⟩ := hfix hlen
+        refine ⟨dc', ?_⟩
+        rw [rtBox_succ, hphE]
+        simp only [ne_eq, not_true_eq_false, if_false, hps, hrt', leafRes]
+      · have hag := (lossless_gen (f + 1)).1 bs enc dc hb hsz hm h hlen
+        have heq : enc = bs := by
+          apply List.ext_getElem?
+          intro i
+          by_cases hi : i < enc.length
+          · exact hag i hi (by rw [hdc]; simp)
+          · rw [List.getElem?_eq_none (by omega), List.getElem?_eq_none (by omega)]
+        subst heq
+        exact ⟨dc, h⟩
+    · intro bs ks hb hsz hm h hall
+      rcases rtKids_ok_cases f bs ks h with ⟨rfl, rfl⟩ | ⟨ty, hl, size, ks', hph, hle, hne, hk, hr⟩
+      · exact ⟨[], by simp [encKids, rtKids_succ], rfl⟩
+      · obtain ⟨hm1, hm2⟩ := moovFreeKids_succ f bs ty hl size hne hph hle hm
+        have htl : (bs.take size).length = size := by simp; omega
+        rcases hr with ⟨_, rfl⟩ | ⟨enc, dc, hbx, hlen, rfl⟩
+        · simp at hall
+        · simp only [List.all_cons, Bool.and_eq_true] at hall
+          obtain ⟨ks'', hk'', hsame⟩ := ihK (bs.drop size) ks' (hb.drop size) (by rw [List.length_drop]; omega)
+            hm2 hk hall.2
+          have hlen' : enc.length = (bs.take size).length := by rw [htl]; exact hlen
+          obtain ⟨dc', hbx'⟩ := ihB (bs.take size) enc dc (hb.take size) (by omega) hm1 hbx hlen'
+          have h1 := rtBox_hdr8 _ _ (hb.take size) enc dc hbx hlen'
+          -- the header of the child slice is the header of `bs`
+          obtain ⟨ty0, hl0, _, hph0, _, _⟩ := rtBox_shape f _ (hb.take size) enc dc hbx
+          obtain ⟨hc8, _, _, _, hty0⟩ := parseHeader_8 _ h1 ty0 hl0 _ hph0
+          have hs8 : 8 ≤ size := by omega
+          have ht : (bs.take size).take 4 = bs.take 4 := by rw [List.take_take]; congr 1; omega
+          have hd : ((bs.take size).drop 4).take 4 = (bs.drop 4).take 4 := by
+            rw [List.drop_take, List.take_take]; congr 1; omega
+          rw [ht] at h1
+          obtain ⟨_, _, _, _, hty⟩ := parseHeader_8 bs h1 ty hl _ hph
+          have htye : ty0 = ty := by rw [hty0, hty, hd]
+          subst htye
+          have hphE := parseHeader_out f _ (hb.take size) enc dc (by omega) hbx hlen' ty0 hl0 _ hph0 (encKids ks')
+          have hne' : (enc ++ encKids ks').isEmpty = false := by
+            cases enc with
+            | nil => simp at hlen; omega
+            | cons a b => rfl
+          refine ⟨{ ty := ty0, enc := enc, dc := dc' } :: ks'', ?_, ?_⟩
+          · simp only [encKids]
+            rw [rtKids_succ, hne', hphE]
+            simp only [Bool.false_eq_true, if_false]
+            rw [if_neg (by simp), List.take_left' rfl, List.drop_left' rfl, hbx', hk'']
+            simp [combineKid, hlen]
+          · simp only [List.map_cons, hsame]
+            rfl
+
+theorem fixed_point (f : Nat) (bs : Bytes) (hb : IsBytes bs) (enc : Bytes) (dc : List Nat)
+    (hsz : bs.length < 2 ^ 32) (_h8 : beVal (bs.take 4) ≠ 1) (hm : moovFree f bs = true)
+    (h : rtBox f bs = .ok enc dc) (hlen : enc.length = bs.length) :
+    ∃ dc', rtBox f enc = .ok enc dc' :=
+  (fixed_point_gen f).1 bs enc dc hb hsz hm h hlen
 
 end Mp4ff.TreeRT
